@@ -17,8 +17,7 @@ from ..repo import AnalysisError, attr_chain, norm, walk_no_nested
 from ..cfg import CFG, node_calls
 
 LEVEL = "other"
-TECHNIQUE = ("pipeline-order and CFG dominance checks on the injection filter; classification of every yield of the serializer "
-             "by the encoder it passes through; constant folding of the reverse entity map")
+TECHNIQUE = ('pipeline-order and CFG dominance checks on the injection filter; evaluation of its meta arm on attribute lists in both orders; classification of every yield of the serializer by the encoder it passes through (handlers resolved through helpers); constant folding of the reverse entity map')
 CLAIM = ('Whenever an output encoding is requested the declaration filter runs first; on every path through it '
          'a document head ends up with a meta declaring the requested encoding (injected iff none was '
          'rewritten) and no token is lost; every piece of text or attribute value is encoded with the handler '
